@@ -205,6 +205,12 @@ namespace cs
         {
             unsigned char pad[Pad];
         };
+        // (Pad 64: a derived type that is over-aligned compared with its base)
+        template <>
+        struct PDerived<64> : PBase
+        {
+            alignas(64) unsigned char pad[64];
+        };
         template <std::size_t Pad, class Alloc>
         void op_dealloc_direct(Ctx& c, Alloc& a, int form, std::size_t n)
         {
@@ -405,8 +411,11 @@ namespace cs
                 {
                     int         form = int(o.arg(0)) % 3;
                     std::size_t n    = 1 + std::size_t(o.arg(2)) % 9;
-                    switch (o.arg(1) % 3)
+                    switch (o.arg(1) % 4)
                     {
+                    case 3:
+                        op_dealloc_direct<64>(c, env.la[0], form, n);
+                        break;
                     case 0:
                         op_dealloc_direct<4>(c, env.la[0], form, n);
                         break;
